@@ -99,6 +99,7 @@ let () =
              must return, and Get must answer like a map from heads to body sets *)
           bump "cases_client" 1;
           let present = Hashtbl.create 64 and opno = ref 0 and evs = ref 0 in
+          let acts : (int * int * int, int list) Hashtbl.t = Hashtbl.create 64 in
           let opsig = Buffer.create 256 in
           List.iter (fun opres ->
             incr opno; incr nops;
@@ -107,13 +108,32 @@ let () =
             Buffer.add_string opsig op; Buffer.add_char opsig ';';
             let f = Array.of_list (List.filter (fun s -> s <> "") (split_on op " ")) in
             let i = int_of_string f.(1) in
-            let expect = match f.(0) with
-              | "A" -> Hashtbl.replace present i (); "ok"
-              | "R" | "X" -> if Hashtbl.mem present i then incr evs; Hashtbl.remove present i; "ok"
-              | "G" -> if Hashtbl.mem present i then "1" else "0"
+            let ckind = (match toks with _ :: k :: _ -> k | _ -> "productions") in
+            let expect = match ckind, f.(0) with
+              | "productions", "A" -> Hashtbl.replace present i (); "ok"
+              | "productions", ("R" | "X") -> if Hashtbl.mem present i then incr evs; Hashtbl.remove present i; "ok"
+              | "productions", "G" -> if Hashtbl.mem present i then "1" else "0"
+              | "firstfollow", "B" -> if i > 40 then incr evs; "ok"
+              | "firstfollow", "F" -> "1"
+              | "firstfollow", "W" -> "0"
+              | "lrtable", "N" -> "ok"
+              | "lrtable", "A" ->
+                (* cell (0,s,a) holds the set of distinct shift targets added so far *)
+                let key = (0, i, int_of_string f.(2)) and x = int_of_string f.(3) in
+                let cur = (try Hashtbl.find acts key with Not_found -> []) in
+                let cur' = if List.mem x cur then cur else x :: cur in
+                Hashtbl.replace acts key cur'; incr evs;
+                if List.length cur' = 1 then "t" else "f"
+              | "lrtable", "S" -> Hashtbl.replace acts (1, i, int_of_string f.(2)) [int_of_string f.(3)]; "ok"
+              | "lrtable", "Q" ->
+                (match (try Hashtbl.find acts (0, i, int_of_string f.(2)) with Not_found -> []) with
+                 | [x] -> string_of_int x | _ -> "err")
+              | "lrtable", "G" ->
+                (match (try Hashtbl.find acts (1, i, int_of_string f.(2)) with Not_found -> []) with
+                 | [x] -> string_of_int x | _ -> "err")
               | _ -> "?" in
             if res <> "?" && res <> expect then
-              Printf.printf "MISMATCH line=%d op=%d kind=api what=client productions %s: implementation %s, expected %s\n" !lineno !opno op res expect
+              Printf.printf "MISMATCH line=%d op=%d kind=api what=client %s %s: implementation %s, expected %s\n" !lineno !opno ckind op res expect
           ) body;
           if !evs >= 1 then Hashtbl.replace nontrivial (0, Digest.string (Buffer.contents opsig)) ()
         end else
